@@ -184,9 +184,9 @@ def map_call(ctx, i):
                     empty_map(ctx, o, f"async-map-k{mc}", case)
     # a map() call that cannot run (a required input is missing, errors are raised): rejected, nothing delivered
     others = [k for k in inputs if k != over]
-    if n > 0 and others:
-        k = rng.choice(sorted(others))
+    for k in sorted(others)[:4]:
         less = {a: b for a, b in inputs.items() if a != k}
+        less[over] = [f"{over}:r{j}" for j in range(2)]
         for runner in ("sync", "async"):
             o = core.execute(core.with_async(spec, runner == "async", rng), less, runner, processors=[(Rec if runner == "sync" else ARec)("p")], map_over=over, error_handling="raise")
             if o.exc is not None and type(o.exc).__name__ == "MissingInputError":
